@@ -144,6 +144,20 @@ func c08Case(c *lib.Ctx) {
 	nsteps := 60 + r.Intn(200)
 	maxCk := 2 + r.Intn(4)
 	taken := 0
+	if r.Intn(6) == 0 {
+		// a long lineage: WAL and table numbers beyond one digit before the restores start
+		k := 8 + r.Intn(7)
+		for i := 0; i < k; i++ {
+			e.randomWrite()
+			taken++
+			e.checkpointEpisode()
+			if cks := e.ckptsOfPrimary(); i%3 == 2 && len(cks) > 0 {
+				e.retain(cks)
+			}
+		}
+		maxCk = taken + 3 + r.Intn(3)
+		c.Feat("long_lineage_cases", 1)
+	}
 	for step := 0; step < nsteps; step++ {
 		switch x := r.Intn(100); {
 		case x < 70:
